@@ -18,6 +18,8 @@ mod resources;
 mod semantic;
 mod test_lib;
 mod vfs;
+#[cfg(emmyluals_emmylua_analyzer_rust_verif)]
+mod verif_sync;
 
 pub use compilation::*;
 pub use config::*;
